@@ -291,6 +291,31 @@ def job_symbolic(job):
             continue
         fr = O.Frame(alg)
         out['configs'] += 1
+        # a fixed case per algebra: the operand named as kingdon names it (alg.vector(name='x') -> x0, x1, .. or x1, x2, ..) enters
+        # the result partly as bare coefficients, the other operand through shared subexpressions; evaluated by calling the result
+        from kingdon import Algebra as _Alg
+        for alg_ in ([] if cfg.get('graded') else [_Alg(3, 0, 1), _Alg(4), alg]):
+            if alg_.d < 2:
+                continue
+            vk_ = tuple(alg_.indices_for_grades[(1,)])
+            xs_ = alg_.vector(name='x')
+            us_ = alg_.multivector(name='u', keys=vk_[1:])
+            xn_ = [F(rng.randint(2, 9)) for _ in vk_]
+            un_ = [F(rng.randint(2, 5)) for _ in vk_[1:]]
+            for label, fn in (('x + u*(u|u)', lambda p_, q_: p_ + q_ * (q_ | q_)), ('x - (u*u)*u + u', lambda p_, q_: p_ - (q_ * q_) * q_ + q_)):
+                out['evaluations'] += 1
+                sr = _safe(lambda: fn(xs_, us_))
+                nr = _safe(lambda: fn(mv_from(alg_, vk_, list(xn_)), mv_from(alg_, vk_[1:], list(un_))))
+                if sr[0] != 'value' or nr[0] != 'value':
+                    continue
+                envn = {str(s_): v_ for s_, v_ in list(zip(xs_.values(), xn_)) + list(zip(us_.values(), un_))}
+                syms_ = sorted(sr[1].free_symbols, key=lambda z: z.name)
+                cr = _safe(lambda: sr[1](*[envn[z.name] for z in syms_]))
+                want_ = O.nz({k: F(v) for k, v in todict(nr[1]).items()})
+                got_ = O.nz({k: F(v) for k, v in todict(cr[1]).items()}) if cr[0] == 'value' else cr[1]
+                if cr[0] != 'value' or not O.eq(got_, want_):
+                    out['failures'].append({'config': dict(cfg, chain_algebra=[int(alg_.p), int(alg_.q), int(alg_.r)]), 'op': 'chain: ' + label, 'what': 'calling the symbolic result differs from the numeric evaluation',
+                                            'symbols': [z.name for z in syms_], 'got': str(got_)[:200], 'expected': str(want_)[:200]})
         for it in range(cfg.get('random', 5)):
             ak, bk = rand_keys(rng, alg, 'sparse') or (0,), rand_keys(rng, alg, rng.choice(['sparse', 'grade'])) or (0,)
             if cfg.get('graded'):
